@@ -25,17 +25,22 @@ pub(crate) fn impl_inverse_uint_scale(n: &BigUint, scale: i64, ctx: &Context) ->
     let mut running_result = next_iteration(guess);
     debug_assert!(!running_result.is_zero(), "Zero detected in inverse calculation of {}e{}", n, -scale);
 
-    let mut prev_result = BigDecimal::one();
+    let mut prev_running_result = BigDecimal::zero();
     let mut result = BigDecimal::zero();
 
     // TODO: Prove that we don't need to arbitrarily limit iterations
     // and that convergence can be calculated
-    while prev_result != result {
+    //
+    // Iterate until the working-precision value itself stops changing:
+    // two successive *rounded* results may agree long before the iteration
+    // has converged when the precision is small (1/5 at precision 1 under
+    // RoundingMode::Down stopped at 0.1)
+    while prev_running_result != running_result {
         #[cfg(bigdecimal_verif)]
         verif_hooks::step(verif_hooks::StepSite::InverseLoop, running_result.scale, running_result.int_val.bits());
 
-        // store current result to test for convergence
-        prev_result = result;
+        // store current value to test for convergence
+        prev_running_result = running_result.clone();
 
         // calculate next iteration
         running_result = next_iteration(running_result).with_prec(max_precision + 2);
